@@ -234,18 +234,24 @@ Proof.
         unfold wlookup. cbn [zassoc]. assert (E3 : cid =? c = false) by (apply Z.eqb_neq; exact Hne). rewrite E3. reflexivity.
 Qed.
 
-Lemma get_widths_entries : forall es m cid,
+Definition entry_ok (e : wentry) : Prop :=
+  match e with WRun _ _ => True | WRange c1 c2 _ => 0 <= c1 /\ c2 <= 65535 end.
+
+Lemma get_widths_entries : forall es m cid, Forall entry_ok es ->
   wlookup (get_widths m [] (flat_map encode_entry es)) cid =
     match iso_w es cid with Some w => Some w | None => wlookup m cid end.
 Proof.
-  induction es as [|e es IH]; intros m cid; [reflexivity|].
+  induction es as [|e es IH]; intros m cid Hok; [reflexivity|].
+  inversion Hok as [|? ? He Hes]; subst.
   destruct e as [c ws|c1 c2 w]; cbn [flat_map encode_entry app get_widths rev].
-  - cbn [rev app]. rewrite integral_zq, qint_zq. rewrite IH. cbn [iso_w covers].
+  - cbn [rev app]. rewrite integral_zq, qint_zq. rewrite IH by exact Hes. cbn [iso_w covers].
     destruct (iso_w es cid); [reflexivity|]. rewrite set_run_lookup.
     destruct ((c <=? cid) && (cid <? c + Z.of_nat (length ws))) eqn:E; [|reflexivity].
     destruct (nth_error ws (Z.to_nat (cid - c))) eqn:En; [reflexivity|].
     apply nth_error_None in En. lia.
-  - cbn [andb]. rewrite !qint_zq. rewrite IH. cbn [iso_w covers].
+  - cbn [andb]. rewrite !qint_zq. cbv zeta. cbn [entry_ok] in He.
+    replace (Z.max c1 0) with c1 by lia. replace (Z.min c2 65535) with c2 by lia.
+    rewrite IH by exact Hes. cbn [iso_w covers].
     destruct (iso_w es cid); [reflexivity|]. rewrite set_range_lookup.
     destruct (Z_le_gt_dec c1 c2) as [Hle|Hgt].
     + replace (c1 + Z.of_nat (Z.to_nat (c2 - c1 + 1))) with (c2 + 1) by lia.
@@ -255,11 +261,11 @@ Proof.
 Qed.
 
 (* the advance of a CID in a horizontal font: the width of the last W entry covering it, else DW *)
-Theorem cid_width_iso es dw w2 dw2 cid :
+Theorem cid_width_iso es dw w2 dw2 cid : Forall entry_ok es ->
   cid_width (mkCID false (flat_map encode_entry es) dw w2 dw2) cid =
     match iso_w es cid with Some w => w | None => dw end.
 Proof.
-  unfold cid_width. cbn [cvertical cw cdw]. rewrite get_widths_entries.
+  intros Hok. unfold cid_width. cbn [cvertical cw cdw]. rewrite get_widths_entries by exact Hok.
   destruct (iso_w es cid); reflexivity.
 Qed.
 
